@@ -81,6 +81,8 @@ struct host_query {
   unsigned short        qid_aaaa;  /* qid for AAAA request */
 
   size_t                remaining; /* number of DNS answers waiting for */
+  ares_status_t         ended_by;  /* ARES_ECANCELLED / ARES_EDESTRUCTION once
+                                    * one of the queries was ended that way */
 
   /* Track nodata responses to possibly override final result */
   size_t                nodata_cnt;
@@ -534,6 +536,12 @@ static void host_callback(void *arg, ares_status_t status, size_t timeouts,
   hquery->timeouts                 += timeouts;
   hquery->remaining--;
 
+  /* A cancel (or destroy) ends the whole request, whichever of its queries it
+   * reaches first and whatever the other one still brings */
+  if (status == ARES_EDESTRUCTION || status == ARES_ECANCELLED) {
+    hquery->ended_by = status;
+  }
+
   if (status == ARES_SUCCESS) {
     if (dnsrec == NULL) {
       addinfostatus = ARES_EBADRESP; /* LCOV_EXCL_LINE: DefensiveCoding */
@@ -574,11 +582,11 @@ static void host_callback(void *arg, ares_status_t status, size_t timeouts,
   }
 
   if (!hquery->remaining) {
-    if (status == ARES_EDESTRUCTION || status == ARES_ECANCELLED) {
+    if (hquery->ended_by != ARES_SUCCESS) {
       /* must make sure we don't do next_lookup() on destroy or cancel,
        * and return the appropriate status.  We won't return a partial
        * result in this case. */
-      end_hquery(hquery, status);
+      end_hquery(hquery, hquery->ended_by);
     } else if (addinfostatus != ARES_SUCCESS && addinfostatus != ARES_ENODATA) {
       /* error in parsing result e.g. no memory */
       if (addinfostatus == ARES_EBADRESP && hquery->ai->nodes) {
@@ -760,6 +768,18 @@ static ares_bool_t next_dns_lookup(struct host_query *hquery)
       hquery->remaining += 2;
       ares_query_nolock(hquery->channel, name, ARES_CLASS_IN, ARES_REC_TYPE_A,
                         host_callback, hquery, &hquery->qid_a);
+      /* (hquery is still there: it waits for two answers.)  Sending the first
+       * query can fail in a way that completes other requests, whose callbacks
+       * may cancel the channel: the request then has to end inside that
+       * ares_cancel() like everything else that was outstanding, not go on to
+       * ask its second question. */
+      if (hquery->ended_by != ARES_SUCCESS) {
+        hquery->remaining--;
+        if (!hquery->remaining) {
+          end_hquery(hquery, hquery->ended_by);
+        }
+        break;
+      }
       ares_query_nolock(hquery->channel, name, ARES_CLASS_IN,
                         ARES_REC_TYPE_AAAA, host_callback, hquery,
                         &hquery->qid_aaaa);
